@@ -19,6 +19,10 @@ Definition opt_eqb {A} (eqb : A -> A -> bool) (a b : option A) : bool :=
 
 Definition zl_eqb := list_eqb Z.eqb.
 
+(* strings of the cases are written packed: n code points of 21 bits each, little-endian, in one literal *)
+Fixpoint cps (n : nat) (z : Z) : list Z :=
+  match n with O => [] | S k => (z mod 2097152) :: cps k (z / 2097152) end.
+
 Fixpoint tlookup {B} (k : list Z) (t : list (list Z * B)) : option B :=
   match t with [] => None | (k', b) :: r => if zl_eqb k k' then Some b else tlookup k r end.
 
